@@ -11,6 +11,7 @@ import (
 	"time"
 
 	clptypes "github.com/Sifchain/sifnode/x/clp/types"
+	margintypes "github.com/Sifchain/sifnode/x/margin/types"
 	sdk "github.com/cosmos/cosmos-sdk/types"
 
 	"sifverif/chain"
@@ -251,6 +252,18 @@ func RunClpHistories(c Ctx, rep *report.Report, rng *chain.Rng, o HistOpts, next
 			}
 			mustOK(e.AddRewardPeriods([]*clptypes.RewardPeriod{p}), "reward period")
 			desc["reward_alloc"] = au.String()
+		}
+		// a third of the worlds: the pools are enabled for margin trading (no positions are opened here): the handlers take
+		// their margin branches (pool-health gate of the removals, removal-queue processing of the adds, and the swap fee of
+		// an ordinary MsgSwap still follows the per-token overrides)
+		if rng.Intn(3) == 0 {
+			mp := toks
+			if len(toks) > 1 && rng.Intn(3) == 0 {
+				mp = toks[:1]
+			}
+			mustOK(e.Tx(e.Admin, &margintypes.MsgUpdatePools{Signer: e.Admin.Addr.String(), Pools: mp}), "margin pools")
+			desc["pools_enabled_for_margin"] = mp
+			rep.Count("world.margin-enabled-pools")
 		}
 		for st := 0; st < o.Steps; st++ {
 			if o.LockChanges && rng.Intn(8) == 0 {
